@@ -36,3 +36,9 @@ pub proof fn lemma_fresh_arith(s: int, al: int)
     let jk = j * k;
     assert(s == jk * 8);
 }
+
+/// size >= k * W  ==>  size / W >= k
+pub proof fn lemma_div_ge(size: int, k: int)
+    requires size >= k * 8,
+    ensures size / 8 >= k,
+{}
